@@ -435,7 +435,18 @@ func c10Filter(c c10Case, items [][]byte) (*bloom.Filter, *refBloom) {
 		for _, it := range items {
 			m.add(it)
 		}
-		return bloom.LoadFilter(wire.NewMsgFilterLoad(append([]byte{}, m.bits...), c.K, c.Tweak, wire.BloomUpdateType(c.Flags))), m
+		msg := wire.NewMsgFilterLoad(append([]byte{}, m.bits...), c.K, c.Tweak, wire.BloomUpdateType(c.Flags))
+		switch c.Tweak % 8 {
+		case 3: // the peer object existed before the message came: LoadFilter(nil), then Reload
+			f := bloom.LoadFilter(nil)
+			f.Reload(msg)
+			return f, m
+		case 5: // ... or was a zero-value Filter
+			f := new(bloom.Filter)
+			f.Reload(msg)
+			return f, m
+		}
+		return bloom.LoadFilter(msg), m
 	}
 	f := bloom.LoadFilter(wire.NewMsgFilterLoad(make([]byte, c.Len), c.K, c.Tweak, wire.BloomUpdateType(c.Flags)))
 	for _, it := range items {
